@@ -55,6 +55,7 @@ structure Child where
   name : String        -- extended name
   ty : Nat             -- id of its type in the schema table
   single : Bool        -- `xsd_child.is_single()`
+  isList : Bool := false   -- `xsd_child.type.is_list()` (asked by the default converter, base.py:485)
   deriving Repr, Inhabited
 
 /-- What the converters ask the schema about the type of the element being converted. -/
@@ -69,6 +70,7 @@ structure Facts where
   anyType : Bool       -- `xsd_type.name == XSD_ANY_TYPE`
   attrs : List String  -- names in `xsd_element.attributes`
   children : List Child
+  isQName : Bool := false   -- `xsd_type.is_qname()` (asked by the default converter, base.py:372)
   deriving Repr, Inhabited
 
 /-- Non recursive part of an `ElementData` (converters/base.py:28). `xmlns` is the *effective*
@@ -127,6 +129,7 @@ inductive Err where
   | leak           -- an exception that `raw_encode` does not catch (IndexError, AttributeError, …)
   | noChild        -- the name matches no element of the content model (validation error)
   | noType         -- schema table has no such type (harness error)
+  | rawContent     -- default convention: `ElementData.content` is the raw data object, not a list of pairs
   | fuel
   deriving Repr, DecidableEq, Inhabited
 
